@@ -37,11 +37,17 @@ def build_one(verif, env, name, feats, prof):
     return (name, prof, r.returncode, r.stdout[-3000:])
 
 
-def build_all(verif, env):
+def build_all(verif, env, tier="quick"):
     jobs = [(n, f, p) for (n, f) in CONFIGS for (_, p) in PROFILES]
     t = time.time()
     with ThreadPoolExecutor(max_workers=8) as ex:
         res = list(ex.map(lambda j: build_one(verif, env, j[0], j[1], j[2]), jobs))
+        mres = list(ex.map(lambda f: build_mc_feature(verif, env, f[0]), MC_FEATURE_RUNS[tier]))
+    for (feats, rc, out) in mres:
+        if rc != 0:
+            sys.stderr.write(out)
+            log("BUILD FAILED for mc with features %s (machinery error unless the tree does not compile in that configuration)" % feats)
+            return False
     bad = [r for r in res if r[2] != 0]
     if bad:
         for b in bad:
@@ -52,6 +58,38 @@ def build_all(verif, env):
     if dt > 3:
         log("built %d configurations in %.1fs" % (len(jobs), dt))
     return True
+
+
+# Generator-side explorations repeated on `mc` built with the feature sets that change generator code
+MC_FEATURE_RUNS = {
+    "quick": [("unsafe", ["C01", "C13"]), ("opt-reduce-fnv-table", ["C19", "C01"]), ("unsafe,opt-reduce-fnv-table", ["C13"])],
+    "thorough": [("unsafe", ["C01", "C03", "C12", "C13"]), ("opt-reduce-fnv-table", ["C01", "C03", "C13", "C19"]),
+                 ("unsafe,opt-reduce-fnv-table", ["C01", "C03", "C12", "C13", "C19"])],
+}
+
+
+def mc_dir(verif, feats):
+    return os.path.join(verif, ".build", "c14", "mc." + feats.replace(",", "_"))
+
+
+def build_mc_feature(verif, env, feats):
+    cmd = ["cargo", "build", "--offline", "-q", "-p", "mc", "--profile", "release", "--features", feats, "--target-dir", mc_dir(verif, feats)]
+    r = subprocess.run(cmd, cwd=os.path.join(verif, "mc"), env=env, stdout=subprocess.PIPE, stderr=subprocess.STDOUT, text=True)
+    return (feats, r.returncode, r.stdout[-3000:])
+
+
+def run_mc_feature(verif, env, feats, pid, tier_for_mc="quick"):
+    evp = os.path.join(verif, ".build", "evidence-secondary", "C14.%s.%s.json" % (pid, feats.replace(",", "_")))
+    os.makedirs(os.path.dirname(evp), exist_ok=True)
+    e = dict(env, MC_LABEL="features_" + feats.replace(",", "_"))
+    r = subprocess.run([os.path.join(mc_dir(verif, feats), "release", "mc"), pid, "--tier", tier_for_mc, "--verif-dir", verif, "--evidence", evp],
+                       cwd=verif, env=e, stdout=subprocess.PIPE, stderr=subprocess.PIPE, text=True)
+    cov = {}
+    try:
+        cov = json.load(open(evp))
+    except Exception:
+        pass
+    return r.returncode, r.stdout, r.stderr, cov
 
 
 def binary(verif, name, prof):
@@ -133,7 +171,7 @@ def run(tier, verif, env):
     os.makedirs(os.path.dirname(ev_path), exist_ok=True)
     if os.path.exists(ev_path):
         os.remove(ev_path)
-    if not build_all(verif, env):
+    if not build_all(verif, env, tier):
         return 2
     results = {}
     jobs = [(n, p, pn) for (n, _) in CONFIGS for (pn, p) in PROFILES]
@@ -191,6 +229,25 @@ def run(tier, verif, env):
                 doc.update({"line": fd[0], "default_line": fd[1], "config_line": fd[2]})
             violations.append(("%s/%s section %s line `%s`" % (n, pn, sec, (fd[1] if fd else "")[:80]), what, doc))
         matrix["%s/%s" % (n, pn)] = cell
+    # generator-side explorations on mc built with the generator-changing feature sets
+    mc_runs = {}
+    mc_jobs = [(f, pid) for (f, pids) in MC_FEATURE_RUNS[tier] for pid in pids]
+    with ThreadPoolExecutor(max_workers=3) as ex:
+        mouts = list(ex.map(lambda j: (j, run_mc_feature(verif, env, j[0], j[1])), mc_jobs))
+    for (feats, pid), (rc, out, err, cov) in mouts:
+        c = cov.get("coverage", {})
+        mc_runs["%s/%s" % (feats, pid)] = {"exit": rc, "evaluations": c.get("evaluations"), "states": c.get("states"), "transitions": c.get("transitions"), "violations": cov.get("violations")}
+        lines_total += int(c.get("evaluations") or c.get("transitions") or 0)
+        if rc == 1:
+            rp = [l.split("replay=", 1)[1].strip() for l in out.splitlines() if l.startswith("VIOLATION") and "replay=" in l]
+            desc = [l.strip() for l in out.splitlines() if l.startswith("  ")]
+            violations.append(("features %s: exploration of %s differs from the reference: %s" % (feats, pid, (desc[0] if desc else "")[:160]),
+                               (desc[0] if desc else "violation")[:600],
+                               {"config": feats, "profile": "da-off", "kind": "mc", "mc_property": pid, "mc_replay": rp[0] if rp else None}))
+        elif rc != 0:
+            sys.stderr.write(err[-2000:])
+            log("mc %s with features %s failed with exit %d (machinery error, not a verdict)" % (pid, feats, rc))
+            return 2
     # the strict configurations must actually differ on the tagged lines (vacuity guard)
     strict_cell = matrix.get("strict-parser/da-off", {})
     distinct = len(set(dump("default", "da-off", "parser") + dump("default", "da-off", "generator") + dump("default", "da-off", "conversions") + dump("default", "da-off", "scores")))
@@ -216,9 +273,10 @@ def run(tier, verif, env):
         "property_id": "C14", "tier": tier, "seed": int(os.environ.get("VERIF_SEED", "0")), "level": "model_checking",
         "coverage": {
             "evaluations": lines_total, "distinct_nontrivial": distinct,
-            "rule": "the enumerated transcript (generator sequences from zero-prefix / reused starts incl. one-slice feeding and all size borders with and without the hint; %d parser texts x 6 types; conversions / normalization / dual round trips / ordering over block-hash families; scores, candidate test and index windows for all 31x31 block-size pairs x 5 templates through three routes; hash primitives) is produced in each of 7 feature sets x 2 debug-assertion settings; every line is a case; non-strict configurations must give byte-identical sections, the strict parser is compared line by line against the documented rule, every configuration also checks itself against the reference model and calls the unchecked twins / easy functions where the configuration has them; distinct_nontrivial = distinct lines of the default transcript" % (ref[0].get("parser", (0,))[0] // 6),
+            "rule": "the enumerated transcript (generator sequences from zero-prefix / reused starts incl. one-slice feeding and all size borders with and without the hint; %d parser texts x 6 types; conversions / normalization / dual round trips / ordering over block-hash families; scores, candidate test and index windows for all 31x31 block-size pairs x 5 templates through three routes; hash primitives) is produced in each of 7 feature sets x 2 debug-assertion settings; every line is a case; non-strict configurations must give byte-identical sections, the strict parser is compared line by line against the documented rule, every configuration also checks itself against the reference model and calls the unchecked twins / easy functions where the configuration has them; in addition the lock-step / explicit-state explorations of C01, C13, C19 (thorough: C03, C12 too) are repeated on `mc` built with the unsafe / opt-reduce-fnv-table / both feature sets; distinct_nontrivial = distinct lines of the default transcript" % (ref[0].get("parser", (0,))[0] // 6),
             "samples": samples, "configurations": len(results), "matrix": matrix,
             "strict_parser_lines_checked_against_rule": strict_checked,
+            "explorations_on_feature_builds_of_mc": mc_runs,
             "sections_default": {k: {"lines": v[0], "digest": v[1]} for k, v in ref[0].items()},
             "exhaustive": True, "known_findings_hit": known_hit,
         },
@@ -249,10 +307,21 @@ def replay(path, verif, env):
     c = doc["case"]
     tier = doc.get("tier", "quick")
     env = dict(env, MC_TIER=tier)
-    if not build_all(verif, env):
-        return 2
     n, pn = c["config"], c["profile"]
+    if c["kind"] != "mc" and not build_all(verif, env, tier):
+        return 2
     p = dict(PROFILES)[pn]
+    if c["kind"] == "mc":
+        feats = c["config"]
+        f, rc0, out0 = build_mc_feature(verif, env, feats)
+        if rc0 != 0:
+            sys.stderr.write(out0)
+            return 2
+        r = subprocess.run([os.path.join(mc_dir(verif, feats), "release", "mc"), "replay", c["mc_replay"]], cwd=verif, env=env, stdout=subprocess.PIPE, text=True)
+        sys.stdout.write(r.stdout.replace("VIOLATION property=", "inner-violation property="))
+        if r.returncode == 1:
+            print("VIOLATION property=C14 replay=%s" % path)
+        return r.returncode
     if c["kind"] in ("crash", "self"):
         rc, out, err = run_cfg(verif, env, n, p)
         secs, selfn, mism = parse_summary(out)
